@@ -25,7 +25,7 @@ The handlers follow the code WITH `repo_patches/fix-C04-*.diff` applied (packet-
 | `PacketSpace::on_ack_rcvd` (qcongestion) walks the sent packets next to the ranges | visits every acknowledged packet number |
 | `RcvdJournal::on_rcvd_ack` filters `packet_include_ack` by the ranges | visits every acknowledged packet number |
 | (NOT in the fix set — `repo_patches/experimental-C04-pn-gap.diff`, `handlePn true`) `RcvdJournal::decode_pn`: more than `maxPnGap` beyond the largest ⇒ `TooLarge` (packet dropped) | `handlePn false` = the code as it is: `on_rcvd_pn` fills up to 2^31 cells |
-| `recv_new_cid_frame`: a sequence number more than `max maxSeqGap limit` beyond the largest received ⇒ CONNECTION_ID_LIMIT_ERROR before the insert | table resized to `seq` cells, `retire_prior_to` RETIRE frames |
+| `recv_new_cid_frame` (/repo HEAD = C14's tree `.exact`: no `seq - retire_prior_to` pre-test, exact count of active ids): a sequence number more than `max maxSeqGap limit` beyond the largest received ⇒ CONNECTION_ID_LIMIT_ERROR before the insert | pinned tree: pre-test only; table resized to `seq` cells, `retire_prior_to` RETIRE frames |
 | `LocalCids::set_limit` issues at most `maxIssuedCids` ids | issues up to the peer's active_connection_id_limit (≤ 2^62−1) |
 
 Not fixed (kept as a finding, see docs/C04.md): `Ack*Space::recv_frame` collects every acknowledged packet number
@@ -200,18 +200,22 @@ open GmQuic.Cid in
 def retireQueued (s : Remote) (tomb : Nat) : Nat := tomb - s.roff
 
 open GmQuic.Cid in
-/-- `recv_new_cid_frame`; `fixed` adds the sequence-gap test in front of the insert.
+/-- `recv_new_cid_frame`.
+`fixed = true`: /repo HEAD — C14's tree `.exact` (no pre-test on `seq - retire_prior_to`: deleted by 58494fa; the number
+of active ids counted after the frame was processed decides alone) with the sequence-gap test of
+`fix-C04-newcid-seq-gap.diff` in front of the insert.
+`fixed = false`: the pinned tree (`.pinned`: only the pre-test on the frame's two fields, no gap test, no count).
 cells = table growth + RETIRE_CONNECTION_ID frames queued (upper bound); iters = tables walked (insert, drain,
 count of active ids, `arrange_idle_cid`). -/
 def handleNewCid (fixed : Bool) (s : Remote) (seq rpt : Nat) (cid : Cid) : Out Remote × Cost :=
-  if seq - rpt > s.limit then (.err .connectionIdLimit, Cost.one)
+  if ¬ fixed ∧ seq - rpt > s.limit then (.err .connectionIdLimit, Cost.one)
   else if seq < s.coff then (.ok s, Cost.one)
   else if fixed ∧ seq - (s.coff + s.cdq.length) > max maxSeqGap s.limit then (.err .connectionIdLimit, Cost.one)
   else
     let grow := s.insertCost seq
     let c : Cost := ⟨s.cdq.length + grow + s.ready.length + s.pending.length + 1,
                      grow + retireQueued s rpt + allocTotal s⟩
-    match Remote.recvNewCid .counted s seq rpt cid with
+    match Remote.recvNewCid (if fixed then .exact else .pinned) s seq rpt cid with
     | .errLimit _ => (.err .connectionIdLimit, c)
     | .discarded => (.ok s, Cost.one)
     | .accepted s' => (.ok s', c)
